@@ -101,4 +101,15 @@ Min2(n) == IF n < 2 THEN n ELSE 2
 \* Responders echo the framing, name and sequence id of the request
 Reply(r, rty, rbody) == EncHeader(r.fr, r.name, rty, r.seq) \o Enc(rbody)
 
+---------------------------------------------------------------------------
+(* The envelope layer's client and the plugin-side server                     *)
+(* (envelope/envelope.go ReadReply; internal/envelope client.Send and          *)
+(* Server.Handle).  A response is a success only when its type is Reply; an     *)
+(* Exception carries a TApplicationException; every other type is an error.     *)
+(* The server answers in a versioned envelope that echoes the request's name     *)
+(* and sequence id, of type Reply, or Exception when the handler failed.         *)
+ReplyClass(ty) == IF ty = 2 THEN "none" ELSE IF ty = 3 THEN "appexc" ELSE "err"
+ClientCall(name, body) == EncEnv([fr |-> "strict", name |-> name, ty |-> 1, seq |-> 1, body |-> body])
+ServerReplyHeader(name, seq, failed) == EncHeader("strict", name, IF failed THEN 3 ELSE 2, seq)
+
 =============================================================================
